@@ -1,2 +1,3 @@
 pub mod grammar;
+pub mod tirgen;
 pub mod tokens;
